@@ -4,7 +4,9 @@ order-0 edges: as new first node, as a leaf at any child position, inside a zero
 an additional zero-order ring bond) and extra zero-order ring bonds between real nodes.  The fine
 molecule must be the same up to the monotone renaming of coarse keys in `fragid`, every real coarse
 node must keep exactly its own atoms, virtual nodes must stay empty; a fragment-less node with an edge
-of order >= 1 must raise SyntaxError.  Both runs are also compared segment by segment with the model."""
+of order >= 1 must raise SyntaxError.  Both runs are also compared segment by segment with the model.
+Object-reuse history: the coarse graph object of the modified string is first resolved through from_graph with a library in
+which the later-virtual nodes have fragments, then - the same object - with the library proper."""
 import copy
 
 import common
@@ -277,6 +279,10 @@ class C11(RS.StepProp):
             {'kind': 0, 'orig': '{[#A]1[#B][#A]1}' + fr, 'modf': '{[#A].21[#B][#A]1.[#V]2}' + fr, 'rho': [[0, 0], [1, 1], [2, 2]], 'aa': True, 'legacy': True},
             {'kind': 0, 'orig': '{[#A][#B]}' + fr, 'modf': '{[#A][#B].[#V]}' + fr, 'rho': [[0, 0], [1, 1]], 'aa': True, 'legacy': True, 'ctor': 'graph'},
             {'kind': 0, 'orig': '{[#A][#B][#A]}' + cg, 'modf': '{[#A].1[#B][#A]1}' + cg, 'rho': [[0, 0], [1, 1], [2, 2]], 'aa': False, 'legacy': True, 'ctor': 'graph'},
+            {'kind': 0, 'orig': '{[#A][#B][#C]}.{#A=CC[$],#B=[$]O[$],#C=[$]CC}', 'modf': '{[#A]1.[#X].[#B]1[#C]}.{#A=CC[$],#B=[$]O[$],#C=[$]CC}',
+             'rho': [[0, 0], [1, 2], [2, 3]], 'aa': True, 'legacy': True, 'ctor': 'graph_reused'},
+            {'kind': 0, 'orig': '{[#A].[#B]}' + cg, 'modf': '{[#A].[#V].[#B]}' + cg, 'rho': [[0, 0], [1, 2]], 'aa': False, 'legacy': True, 'ctor': 'graph_reused'},
+            {'kind': 0, 'orig': '{[#P][#Q]}' + ml, 'modf': '{[#P].([#V])[#Q]}' + ml, 'rho': [[0, 0], [1, 2]], 'aa': True, 'legacy': True, 'level': 0, 'ctor': 'graph_reused'},
             {'kind': 1, 'orig': '{[#A][#B]}' + fr, 'modf': '{[#V][#A][#B]}' + fr, 'rho': [[0, 1], [1, 2]], 'aa': True, 'legacy': True},
             {'kind': 1, 'orig': '{[#A][#B]}' + cg, 'modf': '{[#A][#B]=[#V]}' + cg, 'rho': [[0, 0], [1, 1]], 'aa': False, 'legacy': True},
             {'kind': 1, 'orig': '{[#A][#B]}' + cg, 'modf': '{[#A].[#V][#B]}' + cg, 'rho': [[0, 0], [1, 2]], 'aa': False, 'legacy': True},
@@ -296,6 +302,8 @@ class C11(RS.StepProp):
                     c['ctor'] = 'graph'
                 elif r < 0.4:
                     c['ctor'] = 'dicts'
+                elif r < 0.58 and c['kind'] == 0:
+                    c['ctor'] = 'graph_reused'
                 for lv in range(c.get('levels', 1)):
                     out.append(dict(c, level=lv))
         return out
@@ -311,7 +319,24 @@ class C11(RS.StepProp):
                 if len(self._reccache) > 64:
                     self._reccache.clear()
                 try:
-                    if case.get('ctor') == 'graph':
+                    if case.get('ctor') == 'graph_reused' and text == case['modf'] and case['kind'] == 0:
+                        # object-reuse history (seed C11-7): ONE coarse graph object goes through from_graph twice; the
+                        # first fragment library also defines the nodes that are virtual in the second one (they are
+                        # real, merely unbonded pieces there), so the first call leaves its annotations on the object
+                        import re
+                        from cgsmiles.read_cgsmiles import read_cgsmiles
+                        elements = re.findall(r"\{[^\}]+\}", text)
+                        G = read_cgsmiles(elements[0])
+                        defined = set(re.findall(r'#([A-Za-z0-9]+)=', elements[1]))
+                        virt = sorted({d.get('fragname') for _, d in G.nodes(data=True)} - defined)
+                        first_aa = case['aa'] and len(elements) == 2
+                        lib1 = elements[1][:-1] + ''.join(',#%s=%s' % (v, 'CC' if first_aa else '[#X]') for v in virt) + '}'
+                        try:
+                            MoleculeResolver.from_graph(lib1, G, last_all_atom=first_aa, legacy=case['legacy']).resolve()
+                        except Exception:         # noqa: BLE001 - the first call only prepares the object
+                            pass
+                        r = MoleculeResolver.from_graph(''.join(elements[1:]), G, last_all_atom=case['aa'], legacy=case['legacy'])
+                    elif case.get('ctor') in ('graph', 'graph_reused'):
                         # the same input through the second constructor: base graph as networkx graph
                         import re
                         from cgsmiles.read_cgsmiles import read_cgsmiles
@@ -378,7 +403,7 @@ class C11(RS.StepProp):
         tag = 'all-atom' if case['aa'] else 'coarse'
         if impl['orig'].get('exc'):
             return tag + ':original-not-resolvable'
-        tag += {'graph': ':from_graph', 'dicts': ':from_fragment_dicts'}.get(case.get('ctor'), '')
+        tag += {'graph': ':from_graph', 'dicts': ':from_fragment_dicts', 'graph_reused': ':from_graph:object-resolved-before'}.get(case.get('ctor'), '')
         return '%s:%s%s%s' % (tag, 'level%d:' % case['level'] if case.get('level') else '', '+'.join(sorted(set(case.get('ops', ['corpus'])))),
                             ':virtual-before-real' if impl['class'] else '')
 
